@@ -889,3 +889,24 @@ func (ev *Eval) ExtStores() []ExtStore {
 	}
 	return out
 }
+
+// WalkActivations calls f for this activation and every activation inlined into it (after forcing their evaluation
+// through Events).
+func (ev *Eval) WalkActivations(f func(*Eval)) {
+	f(ev)
+	var cs []*Eval
+	for _, c := range ev.children {
+		cs = append(cs, c)
+	}
+	// deterministic order
+	for i := 0; i < len(cs); i++ {
+		for j := i + 1; j < len(cs); j++ {
+			if cs[j].Site.Pos() < cs[i].Site.Pos() {
+				cs[i], cs[j] = cs[j], cs[i]
+			}
+		}
+	}
+	for _, c := range cs {
+		c.WalkActivations(f)
+	}
+}
